@@ -102,7 +102,7 @@ extern "C" int LLVMFuzzerTestOneInput(const uint8_t *data, size_t size) {
   std::streambuf *old_out = std::cout.rdbuf(devnull.rdbuf());
   {
     CPPParser parser;
-    parser.set_verbose(0);
+    parser.set_verbose((sel & 0x20) ? 1 : 0);      // diagnostics are formatted (and the offending line re-read) only when verbose
     parser._quote_include_path.append_directory(dir + "/inc");
     parser._quote_include_kind.push_back(CPPFile::S_alternate);
     if (sel & 0x10) {
